@@ -23,6 +23,8 @@ Inconsistent(t, v) ==
 
 (* Input classes of the open findings (only the persistence of a deviation is required inside) *)
 GeneralLength(sz, n) == sz.c = "none" \/ sz.ub >= 65536 \/ (sz.ext /\ (n < sz.lb \/ n > sz.ub))
+\* the fragmentation findings concern VALUES of the type; a length outside a non-extensible SIZE must be refused as ever
+InSz(sz, n) == sz.c = "none" \/ sz.ext \/ (n >= sz.lb /\ n <= sz.ub)
 \* the root items of an ENUMERATED are not declared in ascending order of their values
 UnsortedEnum(t) == t.k = "enum" /\ "nums" \in DOMAIN t /\ \E i, j \in 1..t.nroot : i < j /\ t.nums[i] > t.nums[j]
 \* the root alternatives of a CHOICE carry explicit tags that are not declared in canonical order
@@ -35,9 +37,9 @@ DevOf(t, v) ==
   \* an unconstrained INTEGER lives in a u64; its values from 2^63 on
   ELSE IF "UnsignedAboveI64Max" \in Dev /\ t.k = "int" /\ "big" \in DOMAIN t /\ t.con.c = "none" /\ BLeq(BPow2(63), v) THEN "UnsignedAboveI64Max"
   ELSE IF "CountNotFragmented" \in Dev /\ (t.k = "seqof" \/ (t.k = "str" /\ t.cs # "utf8"))
-     /\ Len(v) >= 16384 /\ GeneralLength(t.sz, Len(v))
+     /\ Len(v) >= 16384 /\ GeneralLength(t.sz, Len(v)) /\ InSz(t.sz, Len(v))
   THEN "CountNotFragmented"
-  ELSE IF "BitStringFragmentation" \in Dev /\ t.k = "bits" /\ Len(v) >= 16384 /\ GeneralLength(t.sz, Len(v))
+  ELSE IF "BitStringFragmentation" \in Dev /\ t.k = "bits" /\ Len(v) >= 16384 /\ GeneralLength(t.sz, Len(v)) /\ InSz(t.sz, Len(v))
   THEN "BitStringFragmentation"
   ELSE ""
 
